@@ -30,11 +30,11 @@ theorem uc_reset_wakes (u : Uc) : (u.feed .rst).asleep = false ∧ (u.feed .rst)
 
 theorem ssd_deep_sleep (s : Ssd) (ha : s.asleep = false) (m : UInt8) (hm : m.toNat % 4 ≠ 0) :
     (s.feed (.c 0x10 [m])).asleep = true := by
-  simp [Ssd.feed, ha, hm]
+  simp [Ssd.feed, Ssd.regStep, ha, hm]
 
 /-- mode 0 is "normal mode": the controller does NOT go to sleep (1in54, 2in9, 2in13b_v4) -/
 theorem ssd_mode0_no_sleep (s : Ssd) (ha : s.asleep = false) : (s.feed (.c 0x10 [0x00])).asleep = false := by
-  simp [Ssd.feed, ha]
+  simp [Ssd.feed, Ssd.regStep, ha]
 
 theorem ssd_asleep_ignores (s : Ssd) (ha : s.asleep = true) (c : UInt8) (ps : List UInt8) :
     (s.feed (.c c ps)).bw = s.bw ∧ (s.feed (.c c ps)).red = s.red ∧ (s.feed (.c c ps)).asleep = true := by
